@@ -418,6 +418,35 @@ def generate(repo):
             emitted.append(cname)
         except Unparsed as e:
             unparsed.append('%s: %s' % (cname, e))
+    # implicit-node keys (Cpt.implicit_key / process_implicit_nodes)
+    keys = {}
+    try:
+        cpt = classes['Cpt']
+        for nm in ('ground_keys', 'supply_positive_keys', 'supply_negative_keys', 'connection_keys'):
+            v = cpt.attrs.get(nm)
+            if not (isinstance(v, tuple) and all(isinstance(x, str) for x in v)):
+                raise Unparsed('Cpt.%s' % nm)
+            keys[nm] = list(v)
+        path = os.path.join(repo, 'lcapy', 'schematics/components/cpt.py')
+        with warnings.catch_warnings():
+            warnings.simplefilter('ignore')
+            tree = ast.parse(open(path).read())
+        cdef = [n for n in tree.body if isinstance(n, ast.ClassDef) and n.name == 'Cpt'][0]
+        want = {'supply_keys': "supply_keys = supply_positive_keys + supply_negative_keys",
+                'implicit_keys': "implicit_keys = ('implicit', ) + ground_keys + supply_keys"}
+        for st in cdef.body:
+            if isinstance(st, ast.Assign) and isinstance(st.targets[0], ast.Name) and st.targets[0].id in want:
+                if ast.dump(st) != ast.dump(ast.parse(want[st.targets[0].id]).body[0]):
+                    raise Unparsed('Cpt.%s is not %s' % (st.targets[0].id, want[st.targets[0].id]))
+                want.pop(st.targets[0].id)
+        if want:
+            raise Unparsed('Cpt: %s not found' % sorted(want))
+        fn = [n for n in cdef.body if isinstance(n, ast.FunctionDef) and n.name == 'implicit_key'][0]
+        if 'self.implicit_keys + self.connection_keys' not in ast.unparse(fn):
+            raise Unparsed('Cpt.implicit_key does not scan implicit_keys + connection_keys')
+    except (Unparsed, IndexError, KeyError) as e:
+        unparsed.append('implicit keys: %s' % e)
+        keys = {'ground_keys': [], 'supply_positive_keys': [], 'supply_negative_keys': [], 'connection_keys': []}
     groups = []
     for cname, row in rows:
         for g in groups:
@@ -442,11 +471,18 @@ def generate(repo):
             'def transistorPins2Prefixes : List String := [%s]\n'
             '/-- Transistor.pins: class names / kinds of the P-type devices (drawn with `mirror` reversed) -/\n'
             'def transistorPClasses : List String := [%s]\n'
-            'def transistorPKinds : List String := [%s]\n\nend Lcapy.Layout.Gen\n'
+            'def transistorPKinds : List String := [%s]\n\n'
+            '/-- Cpt.implicit_keys = (\'implicit\',) + ground_keys + supply_positive_keys + supply_negative_keys -/\n'
+            'def implicitKeys : List String := [%s]\n'
+            'def supplyPositiveKeys : List String := [%s]\n'
+            'def connectionKeys : List String := [%s]\n\nend Lcapy.Layout.Gen\n'
             % (', '.join('(%d, %d, %d, %d, %d)' % r for r in rot_rows), NORMALISE, lean_bool(rot_norm),
                ', '.join(lean_str(x) for x in transistor.get('par', {}).get('prefixes', [])),
                ', '.join(lean_str(x) for x in transistor.get('par', {}).get('pclasses', [])),
-               ', '.join(lean_str(x) for x in transistor.get('par', {}).get('pkinds', []))))
+               ', '.join(lean_str(x) for x in transistor.get('par', {}).get('pkinds', [])),
+               ', '.join(lean_str(x) for x in ['implicit'] + keys['ground_keys'] + keys['supply_positive_keys'] + keys['supply_negative_keys']),
+               ', '.join(lean_str(x) for x in keys['supply_positive_keys']),
+               ', '.join(lean_str(x) for x in keys['connection_keys'])))
     return text, {'classes': emitted, 'unparsed': unparsed, 'rot_keys': [r[0] for r in rot_rows], 'rot_normalise': rot_norm}
 
 
